@@ -32,7 +32,7 @@ BOUNDS = {"quick": {"depth": 2, "disposables": 2, "spawns": 1}, "thorough": {"de
 EXHAUSTIVE = {"quick": True, "thorough": True}
 SAMPLE_EVERY = {"quick": 4000, "thorough": 90000}
 
-ENDINGS = ["return", "raise", "raise_base"]
+ENDINGS = ["return", "raise", "raise_base", "raise_falsy", "raise_badstr"]
 DMODES = ["ok", "raise", "susp_ok", "susp_raise"]
 SPAWN = [
     {"kind": "ret", "pauses": 1},
